@@ -128,6 +128,13 @@ func (f *freshness) fresh(v ssa.Value, seen map[ssa.Value]bool) bool {
 		return false
 	case *ssa.Lookup:
 		// element of a fresh local map into which only fresh values were stored
+		// (a map held in a field of a per-render object is filled elsewhere: what its elements
+		// are cannot be told from the stores of this function)
+		if u, ok := x.X.(*ssa.UnOp); ok && u.Op == token.MUL {
+			if _, local := u.X.(*ssa.Alloc); !local {
+				return false
+			}
+		}
 		if f.fresh(x.X, seen) {
 			return f.onlyFreshStored(x.X, seen)
 		}
@@ -263,6 +270,19 @@ func (f *freshness) fromData(v ssa.Value, seen map[ssa.Value]bool, depth int) st
 	case *ssa.Lookup:
 		if s := f.fromData(x.X, seen, depth+1); s != "" {
 			return "an element of " + s
+		}
+		// a variable read back from the render context: the caller's value, or a value a template
+		// may have bound to a second name
+		if u, ok := x.X.(*ssa.UnOp); ok && u.Op == token.MUL {
+			if fa, ok := u.X.(*ssa.FieldAddr); ok {
+				if tn, fld := fieldOfAddr(fa); tn == "RenderContext" {
+					if m, ok := u.Type().Underlying().(*types.Map); ok {
+						if it, ok := m.Elem().Underlying().(*types.Interface); ok && it.NumMethods() == 0 {
+							return "a variable read from RenderContext." + fld
+						}
+					}
+				}
+			}
 		}
 		return ""
 	case *ssa.Index:
